@@ -49,6 +49,15 @@ PROPOSED_FINDINGS = [
   "witness": {"module": "M DEFINITIONS AUTOMATIC TAGS ::= BEGIN T ::= INTEGER (5..1) END", "opts": [],
               "c_output": "asn1fix_crange.c:458: _range_overlap: Assertion `_edge_compare(rb_l, rb_r) <= 0' failed"},
   "matcher": "module contains a range lo..hi with lo > hi; asn1c dies in asn1fix_crange.c"},
+ {"id": "F27", "property": "C10", "status": "known",
+  "what": "an information-object-set row whose &Type is a built-in type ({ BOOLEAN IDENTIFIED BY 1 }) is accepted (exit 0) but the "
+          "IOC table emitter writes '{ \"&Type\", ,' (no cell kind, no descriptor): emitted C does not compile",
+  "witness": {"module": "M DEFINITIONS ::= BEGIN\n  Frame ::= SEQUENCE { ident FRAME-STRUCTURE.&id({FrameTypes}), value FRAME-STRUCTURE.&Type({FrameTypes}{@.ident}) }\n"
+                        "  FRAME-STRUCTURE ::= CLASS { &id INTEGER UNIQUE, &Type } WITH SYNTAX {&Type IDENTIFIED BY &id}\n"
+                        "  FrameTypes FRAME-STRUCTURE ::= { { BOOLEAN IDENTIFIED BY 1 } | { Other IDENTIFIED BY 2 } }\n  Other ::= SEQUENCE {}\nEND\n",
+              "opts": ["-fcompound-names"], "types": ["Frame", "Other"],
+              "c_output": "Frame.c:14:20: error: expected expression before ',' token"},
+  "matcher": "module has an object set row '{ <built-in type> IDENTIFIED BY ...}' and the compile error is 'expected expression before ',' token' in the asn_IOS_ table"},
  {"id": "F84", "property": "C10", "status": "known",
   "what": "-fno-constraints: emit_member_table returns before emitting the member-level OER/PER constraint records but the member table still "
           "references &asn_OER_memb_<x>_constr_<n> / &asn_PER_memb_<x>_constr_<n>: any SEQUENCE/SET/CHOICE/OF member carrying a constraint => exit 0, emitted C does not compile",
@@ -340,6 +349,7 @@ def classify(res):
         elif re.search(r"asn_DEF_Member_\d+. undeclared", msg) and re.search(r"OF\s+(\[[^\]]*\]\s*(IMPLICIT|EXPLICIT)?\s*)?INTEGER\s*\(", text): out.append(("compile", "F44", f + ": " + msg))
         elif "-fno-constraints" in res["opts"] and re.search(r"asn_(OER|PER)_memb_\w+_constr_\d+. undeclared", msg): out.append(("compile", "F84", f + ": " + msg))
         elif "#error" in msg and "cannot be determined" in msg: out.append(("compile", "F85", f + ": " + msg))
+        elif "expected expression before" in msg and re.search(r"\{\s*(BOOLEAN|INTEGER|NULL|REAL|OCTET STRING|BIT STRING|IA5String|UTF8String)\s+IDENTIFIED BY", text): out.append(("compile", "F27", f + ": " + msg))
         else: out.append(("compile", None, f + ": " + msg))
     if out: return out
     if res.get("link_error"):
@@ -416,7 +426,7 @@ def run(ctx):
         if f.get("status") == "known" and "module" in w:
             text = w["module"] if "\n" in w["module"] else w["module"].replace(" BEGIN ", " BEGIN\n  ").replace(" END", "\nEND\n")
             opts = w.get("opts", ["-fcompound-names"])
-            jobs.append((len(jobs), ("witness", f["id"]), text, type_names_of(text), "witness", opts, False))
+            jobs.append((len(jobs), ("witness", f["id"]), text, w.get("types") or type_names_of(text), "witness", opts, False))
     ctx.log(f"running {len(jobs)} asn1c+gcc pipelines ({nvalid} valid modules x {len(OPTSETS)} option sets, {len(kinds) * reps} single-fault modules x 2)")
     results = cgen.pmap(job, jobs)
     ctx.log("pipelines done")
